@@ -642,7 +642,9 @@ def pOffLoop (d : Bytes) : Nat → Bytes → List Slot → List Slot → Nat →
         | [] => pOffLoop d k rest done [s.attach c] o
         | _ :: _ => pOffLoop d k rest (s.attach c :: done) r o
 
-def unmarshalPilosa (d : Bytes) : Res Decoded := do
+/-- The first part of `unmarshalPilosaRoaring`: flags, the containers with their data attached,
+and the position at which the op log starts. -/
+def loadPilosa (d : Bytes) : Res (Nat × List Entry × Nat) := do
   if d.length < 8 then .err .tooSmall
   else do
     let magic ← rd "pilosa.magic" d 0 2
@@ -659,10 +661,13 @@ def unmarshalPilosa (d : Bytes) : Res Decoded := do
         let slots ← pHdrLoop keyN hbuf []
         let obuf ← sub "pilosa.offsets" d (8 + keyN * 12) d.length
         let (slots, oo) ← pOffLoop d keyN obuf [] slots (8 + keyN * 12)
-        let cs := slotsToEntries slots
-        let lbuf ← sub "pilosa.ops" d oo d.length
-        let (m, ops, opN) ← opsLoop lbuf.length lbuf (entriesToVMap cs) 0 0
-        pure { flags, cs, vals := m, ops, opN }
+        pure (flags, slotsToEntries slots, oo)
+
+def unmarshalPilosa (d : Bytes) : Res Decoded := do
+  let (flags, cs, oo) ← loadPilosa d
+  let lbuf ← sub "pilosa.ops" d oo d.length
+  let (m, ops, opN) ← opsLoop lbuf.length lbuf (entriesToVMap cs) 0 0
+  pure { flags, cs, vals := m, ops, opN }
 
 /-! ### UnmarshalBinary, official format -/
 
